@@ -31,7 +31,7 @@ ASSUMPTIONS = [
     "byte strings hold values < 256; str arguments hold code points <= 0x10FFFF",
     "JSON values: null, booleans, integers, strings, lists, string-keyed objects (no floats)",
 ]
-RULE = ("per operation: fixed boundary inputs + random strings over an alphabet of delimiters, controls, UTF-8 boundary bytes, astral and surrogate "
+RULE = ("per operation: fixed boundary inputs (incl. leading U+FEFF / EF BB BF, U+FFFE, truncated and doubled BOMs for every decoding helper) + random strings over an alphabet of delimiters, controls, UTF-8 boundary bytes, astral and surrogate "
         "code points; thorough adds exhaustive small scopes (all byte strings up to length 3 over a 25-byte UTF-8 boundary alphabet and of length 4 over 8 bytes, every numeric "
         "character reference near the table boundaries, all query strings up to length 4 over {a,=,&,+,%,4,1}); distinct by canonical input; "
         "non-trivial = input non-empty")
@@ -384,10 +384,49 @@ def py_check(case, o):
 
 # ---------------------------------------------------------------- generators
 TEXT_ALPHA = [0, 9, 10, 12, 13, 31, 32, 34, 35, 37, 38, 39, 43, 47, 48, 49, 52, 55, 59, 60, 61, 62, 65, 70, 92, 97, 102, 120,
-              126, 127, 128, 159, 160, 233, 255, 256, 0x7FF, 0x800, 0x20AC, 0xD7FF, 0xE000, 0xFFFD, 0xFFFF, 0x10000, 0x1F600, 0x10FFFF]
+              126, 127, 128, 159, 160, 233, 255, 256, 0x7FF, 0x800, 0x20AC, 0xD7FF, 0xE000, 0xFEFF, 0xFFFD, 0xFFFE, 0xFFFF, 0x10000, 0x1F600, 0x10FFFF]
 SURR = [0xD800, 0xDBFF, 0xDC00, 0xDFFF]
 U8_BOUNDARY = [0x00, 0x41, 0x7F, 0x80, 0x8F, 0x90, 0x9F, 0xA0, 0xBF, 0xC0, 0xC1, 0xC2, 0xDF, 0xE0, 0xE1, 0xEC, 0xED, 0xEE, 0xEF,
                0xF0, 0xF1, 0xF3, 0xF4, 0xF5, 0xFF]
+
+
+# codec-sensitive leading sequences: a byte-order mark must be ordinary data for every helper
+BOM_TEXTS = [[0xFEFF], [0xFEFF, 104, 101, 108, 108, 111], [0xFEFF, 0xFEFF], [0xFEFF, 0xFEFF, 97], [0xFFFE], [0xFFFE, 97],
+             [97, 0xFEFF, 98], [0xFEFF, 60, 38, 62, 34, 39], [0xFEFF, 32, 43, 47, 37, 52, 49], [0xFEFF, 233, 0x1F600]]
+BOM_BYTES = [list("".join(map(chr, s)).encode("utf-8")) for s in BOM_TEXTS] + \
+    [[0xEF, 0xBB], [0xEF, 0xBB, 0x41], [0xEF], [0xEF, 0xBB, 0xBF, 0xFF], [0xFF, 0xFE], [0xFE, 0xFF], [0xFF, 0xFE, 0x61, 0x00],
+     [0xEF, 0xBB, 0xBF, 0xEF, 0xBB], [0x2B, 0x2F, 0x76, 0x38]]
+
+
+def bom_cases():
+    """Every operation that decodes or encodes, on inputs that start with U+FEFF / EF BB BF and relatives (both tiers)."""
+    out = []
+    for s in BOM_TEXTS:
+        out.append(C("utf8", v=["str", s]))
+        out.append(C("touni", v=["str", s]))
+        out.append(C("html", v=["s", s]))
+        out.append(C("htmlun", v=["s", s]))
+        out.append(C("json", v=["str", s]))
+        out.append(C("json", v=["obj", [[s, ["arr", [["str", s]]]]]]))
+        for plus in (True, False):
+            out.append(C("url", v=["s", s], plus=plus))
+            for enc in (True, False):
+                out.append(C("urlun", v=["s", s], enc=enc, plus=plus))
+    for b in BOM_BYTES:
+        out.append(C("touni", v=["bytes", b]))
+        out.append(C("utf8", v=["bytes", b]))
+        out.append(C("recuni", v=["bytes", b]))
+        out.append(C("recuni", v=["list", [["bytes", b], ["tuple", [["bytes", b]]], ["dict", [[["bytes", b], ["bytes", b]]]]]]))
+        out.append(C("html", v=["b", b]))
+        out.append(C("htmlun", v=["b", b]))
+        for plus in (True, False):
+            out.append(C("url", v=["b", b], plus=plus))
+            for enc in (True, False):
+                out.append(C("urlun", v=["b", b], enc=enc, plus=plus))
+                out.append(C("urlun", v=s_("".join("%%%02X" % x for x in b) + "a"), enc=enc, plus=plus))
+        out.append(C("qs", v=["b", b + [61] + b], keep=True, strict=False))
+        out.append(C("qsrt", ps=[[b, b], [b, []]], keep=True, strict=True))
+    return out
 
 
 def rtext(rng, n=None, surr=0.0, alpha=TEXT_ALPHA):
@@ -412,28 +451,30 @@ def rbytes(rng, n=None):
 
 
 def rvalid_bytes(rng):
-    return list("".join(map(chr, rtext(rng))).encode("utf-8"))
+    lead = rng.choice(BOM_TEXTS) if rng.random() < 0.12 else []
+    return list("".join(map(chr, lead + rtext(rng))).encode("utf-8"))
 
 
 def rsval(rng, surr=0.05):
     r = rng.random()
     if r < 0.55:
-        return ["s", rtext(rng, surr=surr)]
+        lead = rng.choice(BOM_TEXTS) if rng.random() < 0.1 else []
+        return ["s", lead + rtext(rng, surr=surr)]
     if r < 0.8:
         return ["b", rvalid_bytes(rng)]
     return ["b", rbytes(rng)]
 
 
-HTML_PIECES = ["&", "&amp;", "&amp", "&lt;", "&lt", "&gt;", "&gt", "&quot;", "&quot", "&apos;", "&#", "&#x", "&#X", "&#x27;", "&#39;",
+HTML_PIECES = ["\ufeff", "\ufffe", "&", "&amp;", "&amp", "&lt;", "&lt", "&gt;", "&gt", "&quot;", "&quot", "&apos;", "&#", "&#x", "&#X", "&#x27;", "&#39;",
                "&#X41", "&#65", "&#0;", "&#13;", "&#x80;", "&#150;", "&#159;", "&#xD800;", "&#xDFFF;", "&#x110000;", "&#1114111;",
                "&#xFFFE;", "&#11;", "&#x7f;", "&#xFDD0;", "&#x1FFFF;", "&#00065;", "&#x0041;", "&#xg;", "&#x;", "&#;", "&#a",
                "a", ";", " ", "#", "x", "X", "1", "f", "<", ">", "\"", "'", "\t", "\n", "é", "\U0001F600", "&&", "&;", "& ", "&a ", "&amp;amp;"]
 HTML_OUTSIDE = ["&apos", "&notin;", "&ampx", "&AMP;", "&nbsp;", "&a", "&x;", "&ltx;", "&quo", "&abcdefghijklmnopqrstuvwxyzabcdefghij;", "&é;"]
 
-URL_PIECES = ["%41", "%e9", "%E9", "%c3%a9", "%C3%A9", "%zz", "%", "%4", "%%41", "+", " ", "/", "a", "~", "%2B", "%2b", "%20", "%25", "%e2%82%ac",
+URL_PIECES = ["\ufeff", "%EF%BB%BF", "%ef%bb", "\ufffe", "%41", "%e9", "%E9", "%c3%a9", "%C3%A9", "%zz", "%", "%4", "%%41", "+", " ", "/", "a", "~", "%2B", "%2b", "%20", "%25", "%e2%82%ac",
               "%f0%9f%98%80", "%ed%a0%80", "%c0%af", "%e2%82", "%ff", "%80", "é", "€", "\U0001F600", "&", "=", "%1", "%g1", "%1g", "%00"]
 
-QS_PIECES = ["a", "b", "=", "&", "+", "%41", "%4", "%", "%zz", "%e9", "%26", "%3D", "%2B", "é", "ÿ", ";", " ", "a=1", "&&", "==", "a=&", "=b"]
+QS_PIECES = ["%EF%BB%BF", "a", "b", "=", "&", "+", "%41", "%4", "%", "%zz", "%e9", "%26", "%3D", "%2B", "é", "ÿ", ";", " ", "a=1", "&&", "==", "a=&", "=b"]
 
 
 def rconcat(rng, pieces, n=None):
@@ -464,7 +505,7 @@ def rjv(rng, depth=0):
     return ["obj", items]
 
 
-JSON_PIECES = ["</", "<", "/", "</script>", "<\\/", "\\", "\"", "\n", "\r", "\t", "\b", "\f", "\x00", "\x1f", " ", "~", "\x7f", "\x80", "é", "€",
+JSON_PIECES = ["\ufeff", "\ufffe", "</", "<", "/", "</script>", "<\\/", "\\", "\"", "\n", "\r", "\t", "\b", "\f", "\x00", "\x1f", " ", "~", "\x7f", "\x80", "é", "€",
                "￿", "\U00010000", "\U0001F600", "\U0010FFFF", "a", "<<//", "<</", "u", "\\u"]
 
 
@@ -527,6 +568,10 @@ def corpus_cases():
         C("json", v=["str", [ord(c) for c in "</script><\\/ \U0001F600"]]),
         C("json", v=["arr", [["str", [60]], ["str", [47]]]]),
         C("json", v=["obj", [[[60, 47], ["int", -(2 ** 70)]]]]),
+        C("utf8", v=["str", [0xFEFF, 104, 101, 108, 108, 111]]),          # to_unicode(utf8(BOM + "hello")) must keep the BOM
+        C("touni", v=["bytes", [0xEF, 0xBB, 0xBF, 104, 101, 108, 108, 111]]),
+        C("html", v=["b", [0xEF, 0xBB, 0xBF, 60]]),
+        C("recuni", v=["list", [["bytes", [0xEF, 0xBB, 0xBF]]]]),
         C("json", v=["str", [0xDBFF, 0xDC00]]),          # adjacent lone surrogates: decode merges them (outside the quantifier)
         C("json", v=["str", [0xDC00, 0xDBFF, 65]]),      # isolated lone surrogates do round-trip
         C("utf8", v=["int", 5]), C("utf8", v=["str", [0xD800]]), C("utf8", v=["list", []]),
@@ -545,7 +590,7 @@ def corpus_cases():
 def gen_cases(rng, tier):
     thorough = tier != "quick"
     k = 4 if thorough else 1
-    out = []
+    out = bom_cases()
     # ---- HTML escape -> unescape
     for c in [38, 60, 62, 34, 39, 59, 35]:
         out.append(C("html", v=["s", [c]]))
